@@ -1,7 +1,7 @@
 (** C08, round 3 — what the calendar model (Sys/Calendar.v) says about the vesting period of a
     light-node client, and the law a ranking comparator must obey (rankValidators).  *)
 From Coq Require Import List ZArith Bool String Permutation Lia.
-From Paloma Require Import Evm.Assign Sys.Calendar Sys.Ambient Sys.AmbientProofs.
+From Paloma Require Import Evm.Assign Cons.Quorum Cons.QuorumProofs Sys.Calendar Sys.Ambient Sys.AmbientProofs.
 From Paloma Require Gen.C08.
 Import ListNotations.
 Open Scope Z_scope.
@@ -163,4 +163,49 @@ Lemma rank_comparator_source_shape :
   Gen.C08.rank_comparator =
   ["slices.SortStableFunc(ranked)"; "if a.score.GT(b.score) return -1"; "if a.score.LT(b.score) return 1";
    "return strings.Compare(a.address, b.address)"]%string.
+Proof. vm_compute. reflexivity. Qed.
+
+(** * 3. The premise of the evidence tally: one piece of evidence per validator *)
+
+(** AddEvidence as it is (C04's [add_evidence]: replace by validator address alone) keeps one piece of
+    evidence per validator over every sequence of submissions ... *)
+Lemma evidence_one_per_validator_lemma subs : NoDup (map ev_val (fold_left add_evidence subs [])).
+Proof. exact (proj1 (add_evidence_latest subs [] (NoDup_nil _))). Qed.
+
+(** ... hence the tally of whatever the validators submitted, in whatever order, re-submissions of
+    another proof type included, does not depend on the order in which the map hands out the groups. *)
+Lemma tally_after_submissions_amb_indep (gk : Z -> Z -> Z) a a' sn subs :
+  amb_ok a -> amb_ok a' ->
+  (0 < sn_total sn /\ sn_total sn = Base.Num.zsum (map snd (sn_vals sn)) /\ Forall (fun p => 0 <= snd p) (sn_vals sn)) ->
+  verify_evidence Z.eqb gk (ord_groups a) sn (fold_left add_evidence subs []) =
+  verify_evidence Z.eqb gk (ord_groups a') sn (fold_left add_evidence subs []).
+Proof.
+  intros Ha Ha' Hsn. apply verify_evidence_amb_indep; try assumption. apply evidence_one_per_validator_lemma.
+Qed.
+
+(** AddEvidence replacing only evidence of the same proof type (seeded C08-P): both kinds of a validator stay. *)
+Fixpoint add_evidence_by_type (evs : list evidence) (e : evidence) : list evidence :=
+  match evs with
+  | [] => [e]
+  | x :: r => if (ev_val x =? ev_val e) && (ev_tag x =? ev_tag e)
+              then {| ev_val := ev_val x; ev_tag := ev_tag e; ev_data := ev_data e; ev_bad := ev_bad e |} :: r
+              else x :: add_evidence_by_type r e
+  end.
+
+Definition pair_key (t d : Z) : Z := t * 1000 + d.
+
+(** Three equal validators each hand in a tx proof (type 1) and then an error report (type 2): with the rule as it is
+    the error reports replace the proofs and win under every order; with the by-type rule both groups hold 3/3 and the
+    winner is whichever group the map hands out first. *)
+Lemma evidence_premise_needed :
+  let sn := {| sn_vals := [(1, 10); (2, 10); (3, 10)]; sn_total := 30 |} in
+  let ev v t := {| ev_val := v; ev_tag := t; ev_data := 7; ev_bad := false |} in
+  let subs := [ev 1 1; ev 2 1; ev 3 1; ev 1 2; ev 2 2; ev 3 2] in
+  verify_evidence Z.eqb pair_key (fun l => l) sn (fold_left add_evidence subs []) =
+  verify_evidence Z.eqb pair_key (@rev _) sn (fold_left add_evidence subs []) /\
+  verify_evidence Z.eqb pair_key (fun l => l) sn (fold_left add_evidence_by_type subs []) <>
+  verify_evidence Z.eqb pair_key (@rev _) sn (fold_left add_evidence_by_type subs []).
+Proof. vm_compute. split; [reflexivity|discriminate]. Qed.
+
+Lemma evidence_replace_rule_source_shape : Gen.C08.evidence_replace_rule = evidence_rule_expected.
 Proof. vm_compute. reflexivity. Qed.
